@@ -67,6 +67,12 @@ void qr_driver(vf::Draw &d, vf::Ctx &ctx, size_t n, int qt, int pf, int arg, voi
   std::vector<T> A;
   vla::salt(d, n * 13 + (size_t)pf * 5 + (size_t)arg * 3 + sizeof(T));
   vla::GenInfo gi = vla::gen_matrix<T>(d, n, pivoted, A, max_kexp<T>());
+  // overall magnitude: every bound of the property is relative to ||A|| (and kappa is scale-free), so a third of the cases are scaled by an
+  // exact power of two far away from 1 -- an absolute threshold anywhere in the factorisation shows up only there
+  int sc = 0;
+  if (d.integer(0, 2) == 0) { int lim = sizeof(T) == 4 ? 32 : 64; sc = (int)d.integer(-lim, lim); }
+  if (sc) { for (auto &x : A) x = std::ldexp(x, sc); gi.desc += "; scaled by 2^" + std::to_string(sc); }
+  ctx.label(sc == 0 ? "scale:1" : sc > 0 ? "scale:2^+k" : "scale:2^-k");
   char what[96]; snprintf(what, sizeof what, "qr<%s>(%s,Q,R%s)", qt ? "MGSRPiv" : "MGSR", arg ? "A+0" : "A", pf == 0 ? "" : pf == 1 ? ",P:vector" : ",P:matrix");
   std::vector<T> Q(n * n), R(n * n), PM(n * n, T(55)); std::vector<size_t> PV(n, 999); T det = T(0);
   kern(A.data(), Q.data(), R.data(), PM.data(), PV.data(), &det);
